@@ -269,6 +269,27 @@ func kfEval(line string) string {
 				return "none"
 			}
 			return "some " + kfAccountsStr(as)
+		case "reimport":
+			// C17, second sentence: re-serialising any successfully parsed input yields bytes that parse
+			// to the same value
+			_, b := rd()
+			as, err := otr3.ImportKeys(bytes.NewReader(b))
+			if err != nil {
+				return "none"
+			}
+			for _, a := range as {
+				if k, ok := a.Key.(*otr3.DSAPrivateKey); !ok || k.PrivateKey.P == nil || k.PrivateKey.Q == nil || k.PrivateKey.G == nil || k.PrivateKey.Y == nil || k.X == nil {
+					return "incomplete" // (a key with missing numbers cannot be written: outside the statement)
+				}
+			}
+			bs, err := otr3.ImportKeys(bytes.NewReader(kfExport(as)))
+			if err != nil {
+				return "rejected"
+			}
+			if !kfSameAccounts(as, bs) {
+				return "differs"
+			}
+			return "same"
 		case "importkeyserr":
 			// the reader delivers the first n bytes and then fails for good (an I/O error, not EOF):
 			// the import must end as it does at the end of input after those bytes
@@ -480,7 +501,7 @@ func (k *kfRun) finding(prop, key, desc, input string) {
 
 var kfEntry = map[string]string{
 	"sexpread": "sexp.ReadValue", "sexplist": "sexp.ReadList", "sexpitem": "sexp.ReadListItem", "sexpstr": "sexp.ReadString",
-	"sexpsym": "sexp.ReadSymbol", "sexpbig": "sexp.ReadBigNum", "bighex": "sexp.NewBigNum", "importkeys": "ImportKeys", "importkeyserr": "ImportKeys(failing reader)",
+	"sexpsym": "sexp.ReadSymbol", "sexpbig": "sexp.ReadBigNum", "bighex": "sexp.NewBigNum", "importkeys": "ImportKeys", "reimport": "ImportKeys(ExportKeysToFile(ImportKeys))", "importkeyserr": "ImportKeys(failing reader)",
 	"exportkeys": "ExportKeysToFile", "roundtrip": "ImportKeys(ExportKeysToFile)", "keyimport": "DSAPrivateKey.Import",
 	"parsepriv": "ParsePrivateKey", "fingerprint": "DSAPublicKey.Fingerprint",
 }
@@ -889,6 +910,13 @@ func (k *kfRun) scenario() {
 			k.finding("C17", "keyfile-import-numbers", "DSAPrivateKey.Import stored other numbers than the file holds: "+res, kfShow("keyimport "+hx(file)))
 		}
 		k.op("importkeys "+hx(file), true)
+		// the account name written as a symbol, with characters a quoted name could not hold
+		sym := []string{"fo\"o", "a\"", "\"b", "jid@host/res", "x#y", "a\"b\"c"}[g.r.Intn(6)]
+		symFile := bytes.Replace(file, append([]byte("(name "), a.name...), []byte("(name "+sym), 1)
+		olog.ok("C17")
+		if r := k.op("reimport "+hx(symFile), true); r == "rejected" || r == "differs" {
+			k.finding("C17", "keyfile-reexport-not-readable", "ImportKeys accepts a file whose re-export it cannot read back ("+r+"): account name "+sym, kfShow("reimport "+hx(symFile)))
+		}
 		// what ExportKeysToFile writes for the same key: DSAPrivateKey.Import must be able to read it back
 		exp := k.op("exportkeys "+a.args(), true)
 		if !strings.ContainsAny(exp, "PSH") {
